@@ -72,6 +72,7 @@ type H struct {
 	flushImage    string             // image taken at the start of the last completed flush ("" = none / invalidated)
 	flushPark     *parkT             // when set, the next flush parks right after its image was taken
 	ackedEnts     map[ent]bool       // entries the node acknowledged (and that no later request removed)
+	killed        bool               // the node was killed (KL) since the last answered NewTerm
 	racing        bool               // a handler may outlive the request that started it (parked handler, stream closed by another request)
 	reported      map[int64][2]int64 // head reported in the NewTerm response, by term
 	ackedIn       map[int64]int64    // highest offset acknowledged on a stream of the term
@@ -140,6 +141,7 @@ func (h *H) onNewWal(g *gateWal) {
 	h.gw = g
 	h.token = false
 	h.adv = 0
+	h.invalidateFlushImage() // images of an earlier WAL instance say nothing about this one
 }
 func (h *H) onAppended(g *gateWal, e ent, leader bool) {
 	h.mu.Lock()
@@ -336,7 +338,45 @@ func (h *H) drainWrites() string {
 	return strings.Join(p, ",")
 }
 
+// olderAccepted: "after a node has answered a new-term request for term T it never again accepts ... on behalf of any term
+// lower than T": a request of kind k carrying term t was accepted
+func (h *H) olderAccepted(kind string, t int64) {
+	if t >= h.fencedTerm || (kind != "DS" && t < 0) {
+		return
+	}
+	if h.snapFailed || h.termLost {
+		// the open finding (stored term lost by a snapshot install that failed half-way) explains it
+		h.violate("newterm:older-term-accepted-after-failed-snapshot-and-restart", fmt.Sprintf(
+			"%s of term %d accepted after NewTerm(%d) had been answered: a snapshot install failed after its first chunk and the stored term is gone", kind, t, h.fencedTerm))
+		return
+	}
+	h.violate("fence:older-term-request-accepted", fmt.Sprintf("%s of term %d accepted after NewTerm(%d) had been answered", kind, t, h.fencedTerm))
+}
+
+// checkTermRegress: the node is in a term lower than one it answered NewTerm for
+func (h *H) checkTermRegress(view string) {
+	v := strings.Split(view, ",")
+	if len(v) < 2 || v[0] == "N" {
+		return
+	}
+	term := atoi(v[1])
+	if term >= h.fencedTerm {
+		return
+	}
+	switch {
+	case h.snapFailed || h.termLost:
+		h.o.Count("term-lost-after-failed-snapshot(known finding)")
+	case h.killed:
+		h.violate("restart:term-regressed-after-kill", fmt.Sprintf(
+			"the node had answered NewTerm(%d); killed right after an answer and restarted on the image it is in term %d", h.fencedTerm, term))
+	default:
+		h.violate("fence:term-regressed", fmt.Sprintf("the node had answered NewTerm(%d) and is now in term %d", h.fencedTerm, term))
+	}
+	h.fencedTerm = term // reported once
+}
+
 func (h *H) record(act, res string) {
+	h.checkTermRegress(h.statusView())
 	h.acts = append(h.acts, act)
 	h.outs = append(h.outs, res+"|"+h.drainAcks()+"|"+h.drainWrites()+"|"+h.statusView())
 }
@@ -437,7 +477,7 @@ func (h *H) newTermRecord(t int64, resp *proto.NewTermResponse, err error) {
 			}
 			h.fencedTerm = t // the node has forgotten the fence: the consequences are not reported again
 		}
-		h.snapFailed, h.termLost = false, false
+		h.snapFailed, h.termLost, h.killed = false, false, false
 		if t > h.fencedTerm {
 			h.fencedTerm = t
 		}
@@ -578,6 +618,7 @@ func (h *H) doTruncate(t, ht, ho int64) {
 	res := errKind(err)
 	if err == nil {
 		res = fmt.Sprintf("head:%d:%d", resp.HeadEntryId.Term, resp.HeadEntryId.Offset)
+		h.olderAccepted("Truncate", t)
 		h.termActionAccepted(t)
 		h.mu.Lock()
 		// Truncate is only legal while FENCED (TLA+ NodeHandlesTruncateRequest; afterwards the node follows the leader of
@@ -658,6 +699,7 @@ func (h *H) doReplicateOpen(sid int, t int64) {
 		}
 	case <-sh.idle:
 		res = "ok"
+		h.olderAccepted("Replicate", t)
 		sh.fc = h.follower()
 		sh.gw = h.gw
 		sh.recvAlive = true
@@ -854,9 +896,55 @@ func (h *H) doCrashRestart(choice int) {
 	h.record(fmt.Sprintf("CR:%d", k), "ok")
 }
 
+// doDeleteShard: DeleteShard through the shards director.  A refusal closes the controller that handled the request; if
+// that was the loaded one it stays in the director, unusable (every later request is answered "already closed", Replicate +
+// Append would run on a nil WAL): the node is then restarted, which is what the model's step says.
+func (h *H) doDeleteShard(t int64) {
+	h.killStreams(relCancelNoSync)
+	loaded := h.follower() != nil || h.leader() != nil
+	err := safe(func() error {
+		_, e := h.sd.DeleteShard(&proto.DeleteShardRequest{Namespace: namespace, Shard: shardId, Term: t})
+		return e
+	})
+	res := errKind(err)
+	panicked := err != nil && strings.HasPrefix(err.Error(), "panic:")
+	if panicked {
+		// the process died inside DeleteShard (after the WAL was deleted): restart
+		res = "err:panic"
+		h.o.Count("delete-shard:process-died(nil DB after a failed snapshot install)")
+		_ = safe(func() error { return h.sd.Close() })
+		h.openDirector()
+	}
+	if err == nil || panicked {
+		h.olderAccepted("DS", t)
+		// the shard is gone, fence included
+		h.mu.Lock()
+		h.shadow = nil
+		h.ackedEnts = map[ent]bool{}
+		h.fenceOpen = false
+		h.gw = nil
+		h.token = false
+		h.mu.Unlock()
+		h.fencedTerm = -1
+		h.snapFailed, h.termLost, h.killed = false, false, false
+	} else if loaded {
+		_ = h.sd.Close()
+		h.mu.Lock()
+		h.gw = nil
+		h.token = false
+		h.mu.Unlock()
+		h.openDirector()
+		if h.snapFailed {
+			h.termLost = true
+		}
+	}
+	h.record(fmt.Sprintf("DS:%d", t), res)
+}
+
 func (h *H) doBecomeLeader(t int64) {
 	_, err := h.rpc.BecomeLeader(context.Background(), &proto.BecomeLeaderRequest{Namespace: namespace, Shard: shardId, Term: t, ReplicationFactor: 1})
 	if err == nil {
+		h.olderAccepted("BecomeLeader", t)
 		h.termActionAccepted(t)
 		// this node is the leader of term t: a generated "leader log of term t" is fictitious from now on
 		if ti := h.terms[t]; ti != nil {
